@@ -16,8 +16,10 @@ impl CanonicalDeserialize for AffinePoint {
             ark_serialize::Compress::No => unimplemented!(),
         };
         match validate {
-            ark_serialize::Validate::Yes => (),
-            ark_serialize::Validate::No => unimplemented!(),
+            // Decoding is the validity check, so it is performed in either
+            // mode. ark-serialize's containers (`Vec<T>`, ...) read every
+            // element with `Validate::No` and batch-check afterwards.
+            ark_serialize::Validate::Yes | ark_serialize::Validate::No => (),
         }
         let bytes = Encoding::deserialize_compressed(reader)?;
         let element: Element = bytes
